@@ -383,6 +383,18 @@ func (p *Program) findSentinels(globals []*ssa.Global) error {
 			if elem == nil {
 				continue
 			}
+			// a marker variable that is declared with an interface type is stored as it is (its
+			// dynamic type is then whatever was assigned: P-SENTINEL judges that)
+			if ld, ok := elem.(*ssa.UnOp); ok {
+				if mg, ok := ld.X.(*ssa.Global); ok && mg.Pkg == p.SSA && types.IsInterface(mg.Type().(*types.Pointer).Elem()) {
+					if r.Marker != nil {
+						return infra("anchor ambiguous: absence marker")
+					}
+					r.Marker = mg
+					r.MarkerList = g
+					continue
+				}
+			}
 			if mi, ok := elem.(*ssa.MakeInterface); ok {
 				if ld, ok := mi.X.(*ssa.UnOp); ok {
 					if mg, ok := ld.X.(*ssa.Global); ok && mg.Pkg == p.SSA {
